@@ -67,6 +67,8 @@ func c13Values(rng *rand.Rand) []any {
 			B string `json:"b,omitempty"`
 		}{7, ""}, [1]string{"<script>"}, []byte("bytes"), map[string][]byte{"b": {0, 255}},
 	}
+	// values that marshal to null (no params member may be sent) and scalars (refused)
+	vals = append(vals, (*int)(nil), json.RawMessage("null"), json.RawMessage(" null\n"), map[string]int(nil), []int(nil), 5, "str", true)
 	// nested to depth 6
 	var nest any = []any{1}
 	for i := 0; i < 6; i++ {
@@ -152,7 +154,27 @@ func TestC13(t *testing.T) {
 			inputs = append(inputs, map[string]any{"kind": kind, "line": modelLine})
 		}
 	}
-	pfield := func(b []byte) string { return hx(b) }
+	// the outbound parameter decision (omit / keep / refuse) comes from the model
+	var qlines []string
+	for _, v := range values {
+		if v == nil {
+			qlines = append(qlines, "c13q -")
+		} else {
+			b, _ := json.Marshal(v)
+			qlines = append(qlines, "c13q "+hx(b))
+		}
+	}
+	decisions := runOracle(t, qlines)
+	for _, d := range decisions {
+		res.Count("params-" + d)
+	}
+	decisionOf := func(i int) string { return decisions[i%len(values)] }
+	pfieldD := func(dec string, b []byte) string {
+		if dec != "keep" {
+			return "-"
+		}
+		return hx(b)
+	}
 
 	synctest.Test(t, func(t *testing.T) {
 		// ---- 1. client requests against a raw peer
@@ -165,7 +187,9 @@ func TestC13(t *testing.T) {
 			if v != nil {
 				pbits, _ = json.Marshal(v)
 			}
-			structured := v == nil || (len(pbits) > 0 && (pbits[0] == '[' || pbits[0] == '{')) || string(pbits) == "null"
+			dec := decisionOf(i)
+			structured := dec != "refuse"
+			pfield := func(b []byte) string { return pfieldD(dec, b) }
 			if !utf8.ValidString(m) {
 				continue
 			}
@@ -266,7 +290,7 @@ func TestC13(t *testing.T) {
 			if merr != nil {
 				continue
 			}
-			record("server-result", out[0], fmt.Sprintf("c13e 0 %s - - %s - - -", hxs(id), pfield(rbits)))
+			record("server-result", out[0], fmt.Sprintf("c13e 0 %s - - %s - - -", hxs(id), hx(rbits)))
 			if gid, o, err := strictResponse(out[0]); err != nil || gid != id || o != "r" {
 				res.Violatef("server response invalid or id not echoed", map[string]any{"id": id}, "got %q: %v", out[0], err)
 			}
@@ -314,7 +338,9 @@ func TestC13(t *testing.T) {
 			if v != nil {
 				pbits, _ = json.Marshal(v)
 			}
-			structured := v == nil || (len(pbits) > 0 && (pbits[0] == '[' || pbits[0] == '{')) || string(pbits) == "null"
+			dec := decisionOf(i)
+			structured := dec != "refuse"
+			pfield := func(b []byte) string { return pfieldD(dec, b) }
 			if i%8 == 0 {
 				err := srv.Notify(ctx, m, v)
 				synctest.Wait()
@@ -556,7 +582,7 @@ func c13CheckRequest(res *Result, emitted []byte, id, method string, params []by
 		res.Violatef("emitted request does not parse back to the same id/method", in, "%q: id %q method %q", emitted, gid, gm)
 	}
 	if len(params) == 0 || string(params) == "null" {
-		if gp != nil && string(bytes.TrimSpace(gp)) != "null" {
+		if gp != nil {
 			res.Violatef("emitted request grew params", in, "%q", emitted)
 		}
 	} else if !jsonEqual(gp, params) {
